@@ -40,7 +40,7 @@ STEMS = ["", "1.2.3.", "25", "1::", "x 1.2.3.4", "::ffff:", "1:2:3:4:5:6:7:"]
 def bounds(tier, seed):
     return {"v4_tokens": "3-4 parts over %d parts, 5 parts over 5" % (
                 len(V4_PARTS_CORE) if tier == "quick" else len(V4_PARTS_FULL)),
-            "v6_tokens": "1-6 parts over 6, 7-9 parts over 3; embedded tails x hex prefixes up to 6 parts",
+            "v6_tokens": "1-6 parts over 6, 7-9 parts over 3; embedded tails x hex prefixes up to 8 parts",
             "contexts": "%d x %d (left,right) around 14 tokens" % (len(CTX), len(CTX)),
             "boundary_strings_len": 4 if tier == "quick" else 5, "stems": STEMS}
 
@@ -206,10 +206,15 @@ def v6_token_list():
 
 
 def v6_tail_list():
+    """hex/colon prefixes of 1..8 parts (8 groups is the longest valid address: '::' + 5 groups +
+    dotted quad has 7 colon-separated parts before the quad) x dotted tails"""
     toks = []
-    for n in range(1, 7):
-        for p in itertools.product(["", "1", "ffff", "0"], repeat=n):
-            for tail in TAILS:
+    for n in range(1, 9):
+        alpha = ["", "1", "ffff", "0"] if n <= 6 else ["", "1", "ffff"]
+        for p in itertools.product(alpha, repeat=n):
+            if n >= 7 and p.count("") > 3:
+                continue
+            for tail in (TAILS if n <= 6 else TAILS[:3]):
                 toks.append(":".join(p + (tail,)))
     return toks
 
@@ -235,7 +240,7 @@ class V6Tails(LinesPart):
     desc = "hex/colon prefixes (1..6 parts) x dotted tails in 3 contexts"
 
     def cases(self):
-        return [{"slice": [i, 16]} for i in range(16)]
+        return [{"slice": [i, 48]} for i in range(48)]
 
     def gen(self, case):
         i, n = case["slice"]
